@@ -515,7 +515,9 @@ class OutputVariable(Variable):
                 f"expected a defuzzifier in output variable '{self.name}', but found None"
             )
         # value at t+1
-        value = self.defuzzifier.defuzzify(self.fuzzy, self.minimum, self.maximum)
+        value = np.array(
+            self.defuzzifier.defuzzify(self.fuzzy, self.minimum, self.maximum), dtype=float
+        )
 
         # previous value is the last element of the value at t
         self.previous_value = np.take(self.value, -1).astype(float)
